@@ -7,6 +7,7 @@ mod oracle;
 mod o_sharks;
 mod o_wire;
 mod o_star;
+mod o_c09;
 mod s_ggm;
 mod o_ggm;
 mod s_ppoprf;
